@@ -103,6 +103,9 @@ struct Case {
     /// context run on a panel that is busy for three polls after every busy-raising command and does
     /// not latch commands received while BUSY is asserted
     busy: bool,
+    /// the protocol predecessor of the entry point (update_partial_old_frame before ..._new_frame) is made with
+    /// this other window: the call under test must program its own window, not inherit the earlier one
+    old_win: Option<Win>,
 }
 
 fn check_one(c: &Case, variant: &str, rep: &mut Report) {
@@ -144,7 +147,13 @@ fn check_one(c: &Case, variant: &str, rep: &mut Report) {
         ops.push(Op::img2(K::UpdateAndDisplayBase, frame_img(spec, K::UpdateFrame, 31), Img::None));
     }
     if let Some(k) = pe.after {
-        ops.push(partial_op(spec, k, w, c.salt ^ 0x1111));
+        ops.push(partial_op(spec, k, c.old_win.unwrap_or(w), c.salt ^ 0x1111));
+        if c.old_win.is_some() {
+            ctx_tag = Some(match ctx_tag {
+                Some(t) => format!("{},other-old-window", t),
+                None => "after:other-old-window".to_string(),
+            });
+        }
     }
     for o in &ops {
         if !rig.apply(o).is_ok() {
@@ -331,10 +340,10 @@ fn check_one(c: &Case, variant: &str, rep: &mut Report) {
 fn check(c: &Case, variant: &str, rep: &mut Report) {
     let mut tmp = Report::new();
     check_one(c, variant, &mut tmp);
-    if c.pred.is_some() && !tmp.failures.is_empty() {
+    if (c.pred.is_some() || c.old_win.is_some()) && !tmp.failures.is_empty() {
         let mut fresh = Report::new();
         // baseline: the fresh call; for a busy context the same predecessor on an always-idle panel
-        let fc = Case { spec: c.spec, pe: c.pe, win: c.win, salt: c.salt, pred: if c.busy { c.pred } else { None }, busy: false };
+        let fc = Case { spec: c.spec, pe: c.pe, win: c.win, salt: c.salt, pred: if c.busy { c.pred } else { None }, busy: false, old_win: None };
         check_one(&fc, variant, &mut fresh);
         let strip = |f: &Failure| {
             let mut g = f.clone();
@@ -342,7 +351,18 @@ fn check(c: &Case, variant: &str, rep: &mut Report) {
             g.sig()
         };
         let fresh_sigs: Vec<String> = fresh.failures.iter().map(|f| strip(f)).collect();
-        let keep: Vec<Failure> = tmp.failures.iter().filter(|f| !fresh_sigs.contains(&strip(f))).cloned().collect();
+        let mut keep: Vec<Failure> = tmp.failures.iter().filter(|f| !fresh_sigs.contains(&strip(f))).cloned().collect();
+        if let Some(ow) = c.old_win {
+            // one stable signature when the call simply inherited the window of the earlier call
+            let inherited = format!("controller decoded window x={} y={} w={} h={}", ow.x, ow.y, ow.w, ow.h);
+            if keep.iter().any(|f| f.class.starts_with("window-") && f.detail.contains(&inherited)) {
+                let mut f = keep[0].clone();
+                f.class = "window-inherited".into();
+                f.tags = vec!["after:other-old-window".into()];
+                f.detail = format!("requested window ({},{},{},{}) but the controller still holds the window ({},{},{},{}) programmed by the preceding {} - the call did not program its own window", c.win.x, c.win.y, c.win.w, c.win.h, ow.x, ow.y, ow.w, ow.h, c.pe.after.map(|k| k.name()).unwrap_or("call"));
+                keep = vec![f];
+            }
+        }
         tmp.failures.clear();
         tmp.fail_counts.clear();
         for f in keep {
@@ -432,7 +452,15 @@ pub fn run(ctx: &Ctx) -> Report {
         let preds: Vec<usize> = (0..syms.len()).filter(|i| !syms[*i].iter().any(|o| matches!(o.k, K::Sleep))).collect();
         for pe in spec.partial {
             for (i, w) in wins.iter().enumerate() {
-                cases.push(Case { spec, pe: *pe, win: *w, salt: 0x600 + i as u32, pred: None, busy: false });
+                cases.push(Case { spec, pe: *pe, win: *w, salt: 0x600 + i as u32, pred: None, busy: false, old_win: None });
+            }
+            if pe.after.is_some() {
+                for (i, w) in wins.iter().enumerate().take(if ctx.tier_thorough { 200 } else { 30 }) {
+                    let ow = wins[(i * 7 + 5) % wins.len()];
+                    if ow != *w {
+                        cases.push(Case { spec, pe: *pe, win: *w, salt: 0xD00 + i as u32, pred: None, busy: false, old_win: Some(ow) });
+                    }
+                }
             }
             // in context: the first windows of the list (edges, single byte/row, seams) per predecessor
             let nctx = if ctx.tier_thorough { 60 } else { 14 };
@@ -441,12 +469,12 @@ pub fn run(ctx: &Ctx) -> Report {
                     continue; // partial update is only legal in full mode (documented assert)
                 }
                 for (i, w) in wins.iter().enumerate().take(nctx) {
-                    cases.push(Case { spec, pe: *pe, win: *w, salt: 0x900 + i as u32, pred: Some(*pi), busy: false });
+                    cases.push(Case { spec, pe: *pe, win: *w, salt: 0x900 + i as u32, pred: Some(*pi), busy: false, old_win: None });
                 }
                 // after a symbol that starts a refresh: also on a panel that is still busy afterwards
                 if syms[*pi].iter().any(|o| matches!(o.k, K::Display | K::UpdateAndDisplay | K::DisplayNew | K::UpdateAndDisplayNew | K::DisplayPartial | K::Clear)) {
                     for (i, w) in wins.iter().enumerate().take(nctx) {
-                        cases.push(Case { spec, pe: *pe, win: *w, salt: 0xB00 + i as u32, pred: Some(*pi), busy: true });
+                        cases.push(Case { spec, pe: *pe, win: *w, salt: 0xB00 + i as u32, pred: Some(*pi), busy: true, old_win: None });
                     }
                 }
             }
